@@ -537,8 +537,20 @@ fn history<D: Dev>(ctx: &Ctx, mon: &mut Mon<D>, rng: &mut Rng, st: &mut Stats, h
             2 => 1 + r.below(20_000),
             _ => 1 + r.below(4_000_000),
         };
-        let pat = rng.below(12);
+        let pat = rng.below(14);
         match pat {
+            12 | 13 => {
+                // two rewinds with tape running in between and no play command of the host's
+                st.patterns.insert("rewind-advance-rewind-play");
+                tryv!(mon.cmd_rewind());
+                tryv!(mon.advance(1 + idle(rng)));
+                if rng.bool() {
+                    tryv!(mon.cmd_stop());
+                    tryv!(mon.advance(idle(rng)));
+                }
+                tryv!(mon.cmd_rewind());
+                tryv!(mon.cmd_play());
+            }
             0..=2 => {
                 st.patterns.insert("stop-play");
                 tryv!(mon.cmd_stop());
